@@ -273,6 +273,27 @@ func (s *scn) genSpecs() {
 			s.specs[0].exit = "never"
 			s.specs[0].heldRun = true
 		}
+	case "shutdownfirst":
+		// Shutdown() is called BEFORE Run(): every registered runnable is stopped although no Run is invoked;
+		// both Stop styles (a lifecycle-style Stop then blocks forever: known finding of C02)
+		s.specs = make([]spec, 1+s.r.Intn(3))
+		for i := range s.specs {
+			s.specs[i] = spec{exit: "sig", stopBlocks: s.r.Chance(1, 3), stateable: s.r.Chance(1, 3),
+				reloadable: s.r.Chance(1, 3), heldStop: s.r.Chance(1, 4)}
+		}
+		s.shutdownShort = s.r.Bool()
+	case "neverreturn":
+		// a runnable whose Run never returns, with either Stop style (a lifecycle-style Stop then blocks
+		// forever, before the shutdown timer is even armed: known finding of C02)
+		s.shutdownShort = true
+		s.specs = make([]spec, 1+s.r.Intn(3))
+		for i := range s.specs {
+			s.specs[i] = spec{exit: "sig", stopBlocks: s.r.Bool()}
+		}
+		k := s.r.Intn(len(s.specs))
+		s.specs[k].exit = "never"
+		s.specs[k].heldRun = true
+		s.specs[k].stopBlocks = s.r.Bool()
 	case "finalstate":
 		// a state monitor that lags behind its runnable when shutdown stores the final state
 		s.specs = make([]spec, 1+s.r.Intn(2))
@@ -369,6 +390,9 @@ func (s *scn) build() error {
 }
 
 func (s *scn) startRun() {
+	// the call is logged before it is made (an offer, like Call k op): Run()'s first critical section
+	// (p.runEntered) happens at some later moment
+	s.rec.Emit("RunEnter")
 	go func() {
 		err := s.sup.Run()
 		res := "other"
@@ -912,7 +936,109 @@ func (s *scn) allCallersBack() bool {
 	return len(s.pending) == 0
 }
 
+// releaseReachedStops releases every held Stop() that has been called and not released, until nothing moves.
+func (s *scn) releaseReachedStops() {
+	for round := 0; round < 8; round++ {
+		s.quiesce()
+		did := false
+		for i, sp := range s.specs {
+			if sp.heldStop && !s.stopReleased[i] && s.has(fmt.Sprintf("StopCall %d", i)) && !s.has(fmt.Sprintf("StopRet %d", i)) {
+				// a lifecycle-style Stop first waits for its Run: the release is only consumed afterwards
+				s.stopReleased[i] = true
+				s.cores[i].StopRelease <- struct{}{}
+				did = true
+			}
+		}
+		if !did {
+			return
+		}
+	}
+}
+
+// settle waits (real time) until Run() (if it was called) and every API caller have returned; it reports
+// whether they did.
+func (s *scn) settle(d time.Duration, runCalled bool) bool {
+	done := func() bool { return (!runCalled || s.runReturned()) && s.allCallersBack() }
+	deadline := time.Now().Add(d)
+	for time.Now().Before(deadline) {
+		if done() {
+			return true
+		}
+		time.Sleep(2 * time.Millisecond)
+	}
+	return done()
+}
+
+func (s *scn) blockedOps() string {
+	s.mu.Lock()
+	defer s.mu.Unlock()
+	var ks []int
+	for k := range s.pending {
+		ks = append(ks, k)
+	}
+	sort.Ints(ks)
+	var out []string
+	for _, k := range ks {
+		out = append(out, fmt.Sprintf("%d:%s", k, strings.ReplaceAll(s.pending[k], " ", "")))
+	}
+	return strings.Join(out, "+")
+}
+
+// runShutdownFirst: Shutdown() before Run(), then Run().
+func (s *scn) runShutdownFirst() {
+	s.shutdownTriggered = true
+	s.apiCall("Shutdown", s.sup.Shutdown)
+	s.releaseReachedStops()
+	s.snap()
+	if s.r.Chance(1, 3) {
+		s.apiCall("Shutdown", s.sup.Shutdown) // a second caller waits on the sync.Once
+		s.quiesce()
+	}
+	runCalled := s.r.Chance(4, 5)
+	if runCalled {
+		s.startRun()
+		s.releaseReachedStops()
+		s.snap()
+	}
+	// real-time verdict: the shutdown timeout (when short) is 120 ms; nothing is held any more
+	if !s.settle(1500*time.Millisecond, runCalled) {
+		s.rec.Emit("Overdue Shutdown()-before-Run(): 1.5s after every held Stop() was released: Run()-called=%v Run()-returned=%v still-blocked=%s",
+			runCalled, s.runReturned(), s.blockedOps())
+	}
+	s.quiesce()
+	s.snap()
+}
+
+// runNeverReturn: one runnable's Run never returns; shutdown by a direct call or a signal.
+func (s *scn) runNeverReturn() {
+	s.startRun()
+	s.rec.WaitQuiescent(3 * time.Second)
+	s.quiesce()
+	s.shutdownTriggered = true
+	if s.r.Bool() {
+		s.apiCall("Shutdown", s.sup.Shutdown)
+	} else {
+		s.apiCall("Sig term", func() { s.sup.SendSignal(syscall.SIGTERM) })
+	}
+	s.quiesce()
+	s.snap()
+	if !s.settle(1500*time.Millisecond, true) { // the shutdown timeout is 120 ms
+		s.rec.Emit("Overdue never-returning Run(): 1.5s after the shutdown trigger (shutdown timeout 120ms): Run()-returned=%v still-blocked=%s",
+			s.runReturned(), s.blockedOps())
+	}
+	s.quiesce()
+	s.snap()
+}
+
 func (s *scn) run() {
+	if s.family == "shutdownfirst" {
+		s.runShutdownFirst()
+		return
+	}
+	if s.family == "neverreturn" {
+		s.runNeverReturn()
+		return
+	}
 	if s.family == "earlyshutdown" {
 		// park Run() on its second log line: it has been entered, nothing is launched yet
 		park := s.ph.ParkOn("Listening for signals")
@@ -927,7 +1053,7 @@ func (s *scn) run() {
 		s.startRun()
 	}
 	// let Run() get going before the environment acts (a Shutdown() that overtakes Run()'s first
-	// statement would stop every registered runnable; that ordering is outside the model)
+	// statement stops every registered runnable: that ordering is the business of family shutdownfirst)
 	s.rec.WaitQuiescent(3 * time.Second)
 	if s.family == "gatefail" {
 		s.preludeGatefail()
@@ -1097,7 +1223,7 @@ func main() {
 		child(*seed, *family)
 		return
 	}
-	fams := []string{"mixed", "startup", "timeout", "state", "reload", "sdsender", "big", "gatefail", "finalstate", "errs", "earlyshutdown", "latesub", "subclose", "gatecancel", "subentry", "slowstop"}
+	fams := []string{"mixed", "startup", "timeout", "state", "reload", "sdsender", "big", "gatefail", "finalstate", "errs", "earlyshutdown", "latesub", "subclose", "gatecancel", "subentry", "slowstop", "shutdownfirst"}
 	type job struct {
 		seed uint64
 		fam  string
